@@ -8,27 +8,33 @@ Definition get_follower (n : node) (id : nid) : fstate :=
 Definition set_follower (n : node) (id : nid) (f : fstate) : node :=
   n <| n_followers ::= put id f |>.
 
-Definition new_round (n : node) : node * N :=
+Definition new_round (n : node) (stamp : N) : node * N :=
   let id := n_next_round n in
-  (n <| n_rounds ::= fun l => l ++ [{| r_id := id; r_count := 1 |}] |> <| n_next_round := id + 1 |>, id).
+  (n <| n_rounds ::= fun l => l ++ [{| r_id := id; r_count := 1; r_stamp := stamp |}] |> <| n_next_round := id + 1 |>, id).
 Definition round_count (n : node) (id : N) : N :=
   match find (fun r => r_id r =? id) (n_rounds n) with Some r => r_count r | None => 0 end.
+Definition round_stamp (n : node) (id : N) : N :=
+  match find (fun r => r_id r =? id) (n_rounds n) with Some r => r_stamp r | None => 0 end.
 Definition bump_round (n : node) (id : N) : node :=
-  n <| n_rounds ::= map (fun r => if r_id r =? id then {| r_id := id; r_count := r_count r + 1 |} else r) |>.
+  n <| n_rounds ::= map (fun r => if r_id r =? id then {| r_id := id; r_count := r_count r + 1; r_stamp := r_stamp r |} else r) |>.
 
-(* tryApplyReadOnlyOperations *)
-Definition try_apply_ro (now : N) (n : node) : node :=
+(* tryApplyReadOnlyOperations(round): fix D4 - only reads submitted before the round was started are verified *)
+Definition try_apply_ro (now : N) (n : node) (stamp : N) : node :=
   signal_ro (n <| n_ro ::= map (fun o => {| ro_fid := ro_fid o; ro_type := ro_type o; ro_payload := ro_payload o;
-                                            ro_read_index := ro_read_index o; ro_verified := true |}) |>
+                                            ro_read_index := ro_read_index o;
+                                            ro_verified := ro_verified o || (ro_round o <? stamp);
+                                            ro_round := ro_round o |}) |>
                <| n_should_verify := true |> <| n_lease := now + n_ld n |>).
 
 (* sendAppendEntriesToPeers: the goroutines are recorded as tasks *)
 Definition send_ae_to_peers (now : N) (n : node) : node :=
   let c := conf_of n in
+  let n0 := n <| n_hb_rounds ::= N.succ |> in
+  let stamp := n_hb_rounds n0 in
   let n1 := if is_single c (n_id n)
-            then try_apply_ro now (if n_commit n <? last_index (n_log n) then signal_commit n else n)
-            else n in
-  let (n2, rid) := new_round n1 in
+            then try_apply_ro now (if n_commit n0 <? last_index (n_log n0) then signal_commit n0 else n0) stamp
+            else n0 in
+  let (n2, rid) := new_round n1 stamp in
   n2 <| n_tasks ::= fun t => t ++ map (fun id => TAe rid id) (filter (fun id => negb (id =? n_id n)) (member_ids c)) |>.
 
 (* becomeLeader *)
@@ -44,7 +50,7 @@ Definition become_leader (now : N) (n : node) : node :=
 Definition send_rv_to_peers (now : N) (n : node) : node :=
   let c := conf_of n in
   if is_single c (n_id n) then become_leader now n else
-  let (n1, rid) := new_round n in
+  let (n1, rid) := new_round n 0 in
   let prevote := role_eqb (n_role n1) PreCandidate in
   n1 <| n_tasks ::= fun t => t ++ map (fun id => TRv rid id prevote)
                                     (filter (fun id => negb (id =? n_id n) && is_voter c id) (member_ids c)) |>.
@@ -142,7 +148,7 @@ Definition l_ae_reply (now : N) (n : node) (rid : N) (peer : nid) (q : ae_req) (
   (* fix: D1 - a reply to a request of an earlier term is ignored *)
   if negb (ae_term q =? n_term n) then (n, None) else
   let n1 := bump_round n rid in
-  let n2 := if has_quorum (conf_of n1) (round_count n1 rid) then try_apply_ro now n1 else n1 in
+  let n2 := if has_quorum (conf_of n1) (round_count n1 rid) then try_apply_ro now n1 (round_stamp n1 rid) else n1 in
   let f := get_follower n2 peer in
   if negb (aer_success p) then
     let n3 := set_follower n2 peer (f <| f_next := aer_index p |>) in
@@ -278,10 +284,13 @@ Definition api_submit (now : N) (n : node) (fid : N) (ty : optype) (payload : N)
       let n1 := append_entries n [{| e_index := idx; e_term := n_term n; e_kind := KOp payload |}] in
       send_ae_to_peers now (n1 <| n_pending ::= put idx fid |>)
   | _ =>
-      let o := {| ro_fid := fid; ro_type := ty; ro_payload := payload; ro_read_index := n_commit n; ro_verified := false |} in
+      (* fix: D20 - a leader that has not committed in its term reads at the end of its log *)
+      let ridx := if committed_this_term n then n_commit n else last_index (n_log n) in
+      let o := {| ro_fid := fid; ro_type := ty; ro_payload := payload; ro_read_index := ridx; ro_verified := false;
+                  ro_round := n_hb_rounds n |} in
       let n1 := n <| n_ro ::= fun l => l ++ [o] |> in
       match ty with
-      | OLease => if n_commit n <=? n_applied n then signal_ro n1 else n1
+      | OLease => if ridx <=? n_applied n then signal_ro n1 else n1
       | _ => if n_should_verify n1 then (send_ae_to_peers now n1) <| n_should_verify := false |> else n1
       end
   end.
